@@ -118,7 +118,8 @@ def catalogue():
             except Exception as e:       # noqa
                 out.append(('reify-exc', type(e).__name__))
             out.append((m.is_role_reifiable(t[1]), m.has_role(t[1]), m.is_role_inverted(t[1]), m.invert_role(t[1]),
-                        m.canonicalize_role(t[1]), m.is_concept_dereifiable(t[2])))
+                        m.canonicalize_role(t[1]), m.is_concept_dereifiable(t[2]),
+                        m.canonical_order(t[1]), m.alphanumeric_order(t[1]), m.original_order(t[1])))
         return out
     C('model_probe', model_probe)
     C('model_eq_fresh', lambda A: (A['m'] == type(A['m'])(roles=A['m'].roles, normalizations=A['m'].normalizations,
@@ -132,13 +133,17 @@ def catalogue():
     return m_key
 
 
-def make_args(rng_seed, idx):
+def make_args(rng_seed, idx, force_model=None):
     import random
     import penman
     from penman.tree import Tree
     rng = random.Random(f'C17:{rng_seed}:{idx}')
     amr = rng.random() < .5
-    roles = [':ARG0', ':ARG1', ':ARG0-of', ':op1', ':op2', ':op10', ':mod', ':polarity', ':quant', ':location', ':domain-of', ':poss', ':foo']
+    if force_model is not None:
+        amr = force_model == 'amr'
+    # ':consist-of' / ':prep-out-of' are plain roles under the AMR model and inverted ones under the default model
+    roles = [':ARG0', ':ARG1', ':ARG0-of', ':op1', ':op2', ':op10', ':mod', ':polarity', ':quant', ':location', ':domain-of', ':poss', ':foo',
+             ':consist-of', ':prep-out-of']
 
     def text():
         node = gen.random_tree_node(rng, gen.fresh_vars(), maxdepth=rng.choice([1, 2, 3]), wf=True, roles=roles,
@@ -289,6 +294,23 @@ def _worker_digests(args):
     return digests_for(*args)
 
 
+MODEL_CALLS = ['model_probe', 'decode', 'encode', 'interpret', 'reconfigure_canon', 'rearrange', 'canonicalize_roles', 'errors',
+               'reify_edges', 'dereify_edges', 'indicate_branches', 'appears_inverted', 'loads', 'dumps']
+
+
+def two_model_digests(seed, n, order):
+    """Digests of the model-dependent calls for the SAME inputs under two model objects living in one process,
+    asked in the given order: an answer may depend on the model it is asked of, never on which model was asked first."""
+    common.use_repo()
+    cat = catalogue()
+    out = {}
+    for idx in range(n):
+        for mname in order:
+            for name in MODEL_CALLS:
+                out[f'{idx}:{mname}:{name}'] = digest(run_call(cat[name][0], make_args(seed, idx, force_model=mname)))
+    return out
+
+
 CLI_OPTS = [[], ['--amr', '--reify-edges'], ['--amr', '--canonicalize-roles', '--rearrange', 'canonical'],
             ['--reconfigure', 'canonical'], ['--amr', '--check'], ['--triples'], ['--reify-attributes', '--make-variables', 'v{i}'],
             ['--amr', '--dereify-edges', '--indicate-branches', '--indent', '0'], ['--amr', '--reify-edges', '--dereify-edges', '--compact'],
@@ -337,6 +359,27 @@ def run(chk):
                 if a[name] != b[name]:
                     chk.fail('hashseed', f'{name} gives a different result under PYTHONHASHSEED={hs}',
                              {'call': name, 'text': make_args(chk.seed, idx)['s'], 'hashseed': hs})
+    # two models in one process, asked in both orders (a cache shared between model objects shows here)
+    nm = 25 if chk.tier == 'quick' else 200
+    code2 = ('import sys, json; sys.path[:0] = [%r, %r]\nfrom harness import c17\n'
+             'print(json.dumps(c17.two_model_digests(%d, %d, sys.argv[1].split(","))))' % (str(common.REPO), str(common.VERIF), chk.seed, nm))
+    env = dict(os.environ, PYTHONHASHSEED='0', PYTHONPATH=f'{common.REPO}:{common.VERIF}')
+    procs = [(o, subprocess.Popen([sys.executable, '-c', code2, o], stdout=subprocess.PIPE, stderr=subprocess.PIPE, text=True, env=env))
+             for o in ('default,amr', 'amr,default', 'amr', 'default')]
+    outs2 = {}
+    for o, p in procs:
+        out, err = p.communicate(timeout=1200)
+        if p.returncode:
+            raise common.BuildError('two-model worker failed: ' + err[-2000:])
+        outs2[o] = json.loads(out)
+    for o in ('amr,default', 'amr', 'default'):
+        for k, v in outs2[o].items():
+            chk.count(('two-models', o, k))
+            if outs2['default,amr'][k] != v:
+                idx, mname, name = k.split(':')
+                chk.fail('model-order', f'{name} under the {mname} model answers differently when the models are asked in the order '
+                         f'[{o}] than in the order [default,amr]', {'call': name, 'model': mname, 'text': make_args(chk.seed, int(idx), mname)['s']})
+    chk.stat('two-model-orders', 4)
     import multiprocessing
     with multiprocessing.get_context('spawn').Pool(1) as pool:
         got = pool.apply(_worker_digests, ((chk.seed, min(nh, 20)),))
